@@ -74,6 +74,7 @@ sdistinct = Fn("sdistinct", V, Bool)
 transpose = Fn("transpose", V, V)
 sorted_of = Fn("sorted_of", V, V)
 pjoin2 = Fn("pjoin", V, V, V)
+pdepth = Fn("pdepth", V, Int)
 pdir = Fn("pdir", V, V)
 pbase = Fn("pbase", V, V)
 str_of = Fn("str_of", V, Str)
@@ -219,6 +220,7 @@ def base_axioms():
                                                z3.And(is_VObj(sget(transpose(p), j)), tag(sget(transpose(p), j)) == TAG["tuple"])),
                            [sget(transpose(p), j)])))
     A(("pjoin_inj", _q([p, q], z3.And(pdir(pjoin2(p, q)) == p, pbase(pjoin2(p, q)) == q), [pjoin2(p, q)])))
+    A(("pjoin_depth", _q([p, q], pdepth(pjoin2(p, q)) == pdepth(p) + 1, [pjoin2(p, q)])))
     A(("pjoin_str", _q([p, q], is_VStr(pjoin2(p, q)), [pjoin2(p, q)])))
     # truthiness of boxed scalars
     A(("truthy_none", z3.Not(truthy(VNone))))
